@@ -80,7 +80,7 @@ def is_cls(ex, p, x, cname):
     """a dynamic value that is an object of exactly that repository class"""
     t = box(ex.deref(p, x))
     cid = V.CLASSES.id(z3.simplify(cname.t).as_string())
-    return VBool(z3.And(Val.is_VObj(t), Val.cls(t) == cid, Val.ref(t) > 0))
+    return VBool(z3.And(Val.is_VObj(t), Val.cls(t) == cid))
 
 REG.contract(
     "nixio.block.Block._copy_objects", props=["C20", "C12"],
@@ -127,3 +127,15 @@ REG.contract(
              # the handle returned denotes the copy: the object linked in this block's tag list under the destination name
              ("cp.handle", "hobj(result) == link(link(hobj(self), 'tags'), dname)", "prop")],
     prop_clauses=["cp.delegates", "cp.handle", "raises-iff:TypeError", "raises-only:TypeError"])
+
+REG.contract(
+    "nixio.file.File.create_block#copy", props=["C20", "C12"], prefix=True,
+    params=dict(self=Obj("File"), name=Str, type_=Str, compression=Enum("Compression"), copy_from=Dyn, keep_copy_id=Bool),
+    requires=["is_obj(copy_from)", "target_obj(copy_from) != 0", "is_str(dec(attr(target_obj(copy_from), 'name')))",
+              "gid(field(self, '_data')) != 0"],
+    modifies=["link", "ord", "kind", "fresh", "attr", "data", "dshape", "dtype"],
+    let="dname = ite_(len(name) == 0, as_str(dec(attr(target_obj(copy_from), 'name'))), name)",
+    # an object of the wrong kind and an existing destination NAME (nothing else) are refused before anything is copied
+    raises={"TypeError": ("not is_cls(copy_from, 'Block')", "prop"),
+            "NameError": ("is_cls(copy_from, 'Block') and link(gid(field(self, '_data')), dname) != 0", "prop")},
+    prop_clauses=["raises-only:TypeError", "raises-only:NameError", "refused-before-cut:TypeError", "refused-before-cut:NameError"])
